@@ -244,7 +244,19 @@ def explore_workspace(srv, base, wid, rnd, tags_out, nq, fixed=None):
     col = Collector(docs)
     diags = {}
     for d in docs:
-        diags[d.path] = srv.open(d.path, d.text)
+        prev = None
+        if fixed is None and rnd.random() < 0.35:
+            # the document is first opened with a text of the same length and the same number of lines whose
+            # line breaks sit elsewhere (one blank line moved), then changed to the text itself: positions must
+            # be those of the CURRENT text
+            import C03
+            prev = C03.same_length_variant(rnd, d.text)
+        if prev is not None:
+            srv.open(d.path, prev)
+            diags[d.path] = srv.change(d.path, d.text, 2)
+            tags_out.update(["reanalysis:same-length"])
+        else:
+            diags[d.path] = srv.open(d.path, d.text)
     fixture_names = set(NAMES_ALL)
     for d in docs:
         for (n, fn, l0) in d.fixtures:
